@@ -10,12 +10,12 @@ T = J + "_transform/"
 V = []
 
 
-def b(id, props, path, old, new, note=""):
-    V.append(dict(id=id, props=props, kind="break", path=path, old=old, new=new, note=note))
+def b(id, props, path, old, new, note="", more=None):
+    V.append(dict(id=id, props=props, kind="break", path=path, old=old, new=new, note=note, more=more))
 
 
-def k(id, props, path, old, new, note=""):
-    V.append(dict(id=id, props=props, kind="keep", path=path, old=old, new=new, note=note))
+def k(id, props, path, old, new, note="", more=None):
+    V.append(dict(id=id, props=props, kind="keep", path=path, old=old, new=new, note=note, more=more))
 
 
 # ------------------------------------------------------------------------------------------------ breaking
@@ -115,7 +115,10 @@ b("reset-forgets-step", ["C19"], A + "nash_mtl.py", "        self.init_gtg = np.
 b("step-before-test", ["C19"], A + "nash_mtl.py", "        if (self.step % self.update_weights_every) == 0:\n            self.step += 1\n", "        self.step += 1\n        if (self.step % self.update_weights_every) == 0:\n            pass\n")
 b("reuse-ndarray", ["C19"], A + "nash_mtl.py", "alpha = torch.from_numpy(self.prvs_alpha).to(device=matrix.device, dtype=matrix.dtype)", "alpha = self.prvs_alpha")
 # C20
-b("chunk-check-after-pipeline", ["C20"], J + "mtl_backward.py", "    backward_transform(EmptyTensorDict())\n\n\ndef _make_task_transform", "    backward_transform(EmptyTensorDict())\n    _check_optional_positive_chunk_size(parallel_chunk_size)\n\n\ndef _make_task_transform")
+b("chunk-check-after-pipeline", ["C20"], J + "mtl_backward.py", "    backward_transform(EmptyTensorDict())\n\n\ndef _make_task_transform", "    backward_transform(EmptyTensorDict())\n    _check_optional_positive_chunk_size(parallel_chunk_size)\n\n\ndef _make_task_transform",
+  more=[(J + "mtl_backward.py", "    _check_optional_positive_chunk_size(parallel_chunk_size)\n\n    features", "    features")])
+k("chunk-check-repeated-after-pipeline", ["C20", "C07"], J + "mtl_backward.py", "    backward_transform(EmptyTensorDict())\n\n\ndef _make_task_transform", "    backward_transform(EmptyTensorDict())\n    _check_optional_positive_chunk_size(parallel_chunk_size)\n\n\ndef _make_task_transform",
+  "the same question was already answered before any write: the second check cannot fire")
 b("upfront-expects-grad-dropped", ["C20"], J + "backward.py", "    for input in inputs:\n        _check_expects_grad(input)\n", "")
 
 # ------------------------------------------------------------------------------------------------ preserving
